@@ -135,19 +135,25 @@ class ArithFunctions(InterpreterFunctions):
 
     @impl(arith.CmpiOp)
     def run_cmpi(self, interpreter: Interpreter, op: arith.CmpiOp, args: PythonValues):
+        assert isa(op.lhs.type, builtin.IndexType | builtin.IntegerType)
+        bitwidth = _int_bitwidth(interpreter, op.lhs.type)
+        # Signless values may be represented by either their signed or their unsigned
+        # value, normalise them before comparing.
+        slhs = to_signed(args[0], bitwidth)
+        srhs = to_signed(args[1], bitwidth)
         match op.predicate.value.data:
             case 0:  # "eq"
-                return (args[0] == args[1],)
+                return (slhs == srhs,)
             case 1:  # "ne"
-                return (args[0] != args[1],)
+                return (slhs != srhs,)
             case 2:  # "slt"
-                return (args[0] < args[1],)
+                return (slhs < srhs,)
             case 3:  # "sle"
-                return (args[0] <= args[1],)
+                return (slhs <= srhs,)
             case 4:  # "sgt"
-                return (args[0] > args[1],)
+                return (slhs > srhs,)
             case 5:  # "sge"
-                return (args[0] >= args[1],)
+                return (slhs >= srhs,)
             case 6:  # "ult"
                 return (args[0] < args[1],)
             case 7:  # "ule"
